@@ -17,7 +17,7 @@ package generic
 //@ pure nb(n Node) []byte = bytes(n.v, n.l)
 
 //@ spec (Node).int
-//@   props C07 C06
+//@   props C07 C06 C12
 //@   requires live: self.t != proto.ERROR
 //@   ensures i32: self.t == proto.INT32 && protowire.vlen(nb(self), 0) > 0 ==> r1 == nil && r0 == sx(int32(protowire.vval(nb(self), 0)))
 //@   ensures s32: self.t == proto.SINT32 && protowire.vlen(nb(self), 0) > 0 ==> r1 == nil && r0 == sx(protowire.unzz32(uint32(protowire.vval(nb(self), 0))))
@@ -29,7 +29,7 @@ package generic
 //@       self.t != proto.SFIX32 && self.t != proto.SFIX64 ==> r1 != nil && r0 == 0
 
 //@ spec (Node).uint
-//@   props C07 C06
+//@   props C07 C06 C12
 //@   requires live: self.t != proto.ERROR
 //@   ensures u32: self.t == proto.UINT32 && protowire.vlen(nb(self), 0) > 0 ==> r1 == nil && r0 == uint(uint32(protowire.vval(nb(self), 0)))
 //@   ensures u64: self.t == proto.UINT64 && protowire.vlen(nb(self), 0) > 0 ==> r1 == nil && r0 == uint(protowire.vval(nb(self), 0))
@@ -38,25 +38,25 @@ package generic
 //@   ensures other: self.t != proto.UINT32 && self.t != proto.UINT64 && self.t != proto.FIX32 && self.t != proto.FIX64 ==> r1 != nil && r0 == 0
 
 //@ spec (Node).enum
-//@   props C07 C06
+//@   props C07 C06 C12
 //@   requires live: self.t != proto.ERROR
 //@   ensures ok: self.t == proto.ENUM && protowire.vlen(nb(self), 0) > 0 ==> r1 == nil && r0 == sx(int32(protowire.vval(nb(self), 0)))
 //@   ensures other: self.t != proto.ENUM ==> r1 != nil && r0 == 0
 
 //@ spec (Node).bool
-//@   props C07 C06
+//@   props C07 C06 C12
 //@   requires live: self.t != proto.ERROR
 //@   ensures ok: self.t == proto.BOOL && protowire.vlen(nb(self), 0) > 0 && protowire.vval(nb(self), 0) <= 1 ==> r1 == nil && (r0 <==> protowire.vval(nb(self), 0) == 1)
 //@   ensures other: self.t != proto.BOOL ==> r1 != nil && !r0
 
 //@ spec (Node).float64
-//@   props C07 C06
+//@   props C07 C06 C12
 //@   requires live: self.t != proto.ERROR
 //@   ensures ok: self.t == proto.DOUBLE && self.l >= 8 ==> r1 == nil && bits(r0) == protowire.le64(nb(self), 0)
 //@   ensures other: self.t != proto.DOUBLE ==> r1 != nil
 
 //@ spec (Node).string
-//@   props C07 C06
+//@   props C07 C06 C12
 //@   requires live: self.t != proto.ERROR
 //@   ensures ok: self.t == proto.STRING && protowire.vlen(nb(self), 0) > 0 && protowire.vval(nb(self), 0) <= uint64(self.l - protowire.vlen(nb(self), 0)) ==> \
 //@       r1 == nil && len(r0) == int(protowire.vval(nb(self), 0))
@@ -65,7 +65,7 @@ package generic
 //@   ensures other: self.t != proto.STRING ==> r1 != nil && len(r0) == 0
 
 //@ spec (Node).binary
-//@   props C07 C06
+//@   props C07 C06 C12
 //@   requires live: self.t != proto.ERROR
 //@   ensures ok: self.t == proto.BYTE && protowire.vlen(nb(self), 0) > 0 && protowire.vval(nb(self), 0) <= uint64(self.l - protowire.vlen(nb(self), 0)) ==> \
 //@       r1 == nil && len(r0) == int(protowire.vval(nb(self), 0)) && samerg(r0, self.v) && offset(r0) == offset(self.v) + protowire.vlen(nb(self), 0)
@@ -75,7 +75,7 @@ package generic
 // searchFieldId: a hit is a well-formed tag carrying the wanted number, strictly inside the message window
 // [old(p.Read), old(p.Read)+messageLen); the cursor rests on that tag.
 //@ spec searchFieldId
-//@   props C07 C06 C10
+//@   props C07 C06 C10 C12
 //@   ensures mono: old(p.Read) <= p.Read
 //@   ensures found: r1 == nil ==> r0 == p.Read && r0 < old(p.Read) + messageLen && binary.tagl(p) > 0 && binary.tagv(p) >> 3 == uint64(id)
 //@   ensures absent: r1 != nil ==> r0 == 0 || r0 == p.Read
@@ -87,7 +87,7 @@ package generic
 // searchIndex: a hit leaves the cursor on the value of the wanted element and returns that offset; the element
 // exists (packed: the offset is strictly inside the packed payload). Negative and out-of-range indexes are misses.
 //@ spec searchIndex
-//@   props C07 C06 C10
+//@   props C07 C06 C10 C12
 //@   ensures mono: old(p.Read) <= p.Read
 //@   ensures negative: idx < 0 ==> r1 != nil
 //@   ensures found: r1 == nil ==> r0 == p.Read && r0 <= len(p.Buf)
@@ -104,7 +104,7 @@ package generic
 
 // searchIntKey / searchStrKey: a hit leaves the cursor on the value tag that follows a key equal to the wanted one.
 //@ spec searchIntKey
-//@   props C07 C06 C10
+//@   props C07 C06 C10 C12
 //@   ensures mono: old(p.Read) <= p.Read
 //@   ensures found: r1 == nil ==> r0 == p.Read
 //@   modifies p.Read
@@ -113,7 +113,7 @@ package generic
 //@     decreases len(p.Buf) - p.Read
 
 //@ spec searchStrKey
-//@   props C07 C06 C10
+//@   props C07 C06 C10 C12
 //@   ensures mono: old(p.Read) <= p.Read
 //@   ensures found: r1 == nil ==> r0 == p.Read
 //@   modifies p.Read
@@ -123,14 +123,14 @@ package generic
 
 // ---- slicing ----------------------------------------------------------------------------------------------
 //@ spec (Node).sliceComplex
-//@   props C07 C06 C10
+//@   props C07 C06 C10 C12
 //@   requires span: self.t != proto.ERROR && 0 <= s && s <= e && e <= self.l
 //@   ensures win: r0.t == t && r0.l == e - s && samerg(r0.v, self.v) && offset(r0.v) == offset(self.v) + s
 //@   ensures valid: windowif(true, r0.v, r0.l)
 //@   ensures meta: (t == proto.LIST ==> r0.et == et && r0.size == size) && (t == proto.MAP ==> r0.et == et && r0.kt == kt && r0.size == size)
 
 //@ spec (Node).slice
-//@   props C07 C06 C10
+//@   props C07 C06 C10 C12
 //@   requires span: self.t != proto.ERROR && 0 <= s && s <= e && e <= self.l
 //@   ensures win: r0.t == t && r0.l == e - s && samerg(r0.v, self.v) && offset(r0.v) == offset(self.v) + s
 //@   ensures valid: windowif(true, r0.v, r0.l)
@@ -145,7 +145,7 @@ package generic
 // walk never steps through a nil descriptor: FieldId/FieldName steps are taken on MESSAGE descriptors, Index
 // steps on LIST descriptors, key steps on MAP descriptors.
 //@ spec (Value).getByPath
-//@   props C07 C06 C10
+//@   props C07 C06 C10 C12
 //@   requires live: self.t != proto.ERROR && self.Desc != nil
 //@   paths 20000
 //@   callsite (*TypeDescriptor).Message assumes fits: r0 != nil
@@ -176,41 +176,41 @@ package generic
 //@ end
 
 //@ spec (Node).iterFields
-//@   props C07 C06 C10
+//@   props C07 C06 C10 C12
 //@   use iter_over(fi)
 //@   ensures start: fi.Err == nil
 
 // element/key/value types LIST and MAP have no wire kind (TypeToKind and IsPacked panic on them): no constructor
 // of this package produces such a container node from a well-formed schema
 //@ spec (Node).iterElems
-//@   props C07 C06 C10
+//@   props C07 C06 C10 C12
 //@   use iter_over(fi)
 //@   requires elem: self.et != proto.LIST && self.et != proto.MAP
 //@   ensures hdr: fi.Err == nil ==> fi.k == 0 && fi.et == self.et && fi.size == self.size && (self.t == proto.LIST || self.t == proto.MAP) && \
 //@       fi.ewt == proto.wtof(self.et) && (fi.isPacked <==> self.et != proto.STRING && self.et != proto.MESSAGE && self.et != proto.BYTE)
 
 //@ spec (Node).iterPairs
-//@   props C07 C06 C10
+//@   props C07 C06 C10 C12
 //@   use iter_over(fi)
 //@   requires elem: self.et != proto.LIST && self.et != proto.MAP && self.kt != proto.LIST && self.kt != proto.MAP
 //@   ensures hdr: fi.Err == nil ==> fi.i == 0 && fi.vt == self.et && fi.kt == self.kt && fi.size == self.size && (self.t == proto.LIST || self.t == proto.MAP) && \
 //@       fi.vwt == proto.wtof(self.et) && fi.kwt == proto.wtof(self.kt)
 
 //@ spec (structIterator).HasNext
-//@   props C07 C06
+//@   props C07 C06 C12
 //@   ensures r0 <==> it.Err == nil && it.p.Read < len(it.p.Buf)
 
 //@ spec (listIterator).HasNext
-//@   props C07 C06
+//@   props C07 C06 C12
 //@   ensures r0 <==> it.Err == nil && it.p.Read < len(it.p.Buf)
 
 //@ spec (mapIterator).HasNext
-//@   props C07 C06
+//@   props C07 C06 C12
 //@   ensures r0 <==> it.Err == nil && it.p.Read < len(it.p.Buf)
 
 // Next: on success the cursor moved strictly forward over one field; [start,end) is its value, inside the buffer.
 //@ spec (*structIterator).Next
-//@   props C07 C06 C10
+//@   props C07 C06 C10 C12
 //@   ensures mono: old(it.p.Read) <= it.p.Read && tagPos == old(it.p.Read)
 //@   ensures ok: old(it.Err) == nil && it.Err == nil ==> tagPos < start && start <= end && end == it.p.Read && \
 //@       start == tagPos + old(protowire.vlen(it.p.Buf, it.p.Read)) && uint64(id) == old(protowire.vval(it.p.Buf, it.p.Read)) >> 3 && \
@@ -220,7 +220,7 @@ package generic
 //@   modifies it.Err, it.p.Read
 
 //@ spec (*listIterator).Next
-//@   props C07 C06 C10
+//@   props C07 C06 C10 C12
 //@   ensures mono: old(it.p.Read) <= it.p.Read
 //@   ensures ok: old(it.Err) == nil && it.Err == nil ==> old(it.p.Read) <= start && start <= end && end == it.p.Read && it.k == old(it.k) + 1
 //@   ensures packed: old(it.Err) == nil && it.Err == nil && it.isPacked ==> start == old(it.p.Read)
@@ -229,14 +229,14 @@ package generic
 //@   modifies it.Err, it.p.Read, it.k
 
 //@ spec (*mapIterator).NextStr
-//@   props C07 C06 C10
+//@   props C07 C06 C10 C12
 //@   ensures mono: old(it.p.Read) <= it.p.Read
 //@   ensures ok: old(it.Err) == nil && it.Err == nil ==> old(it.p.Read) < keyStart && keyStart < start && start <= end && end == it.p.Read && it.i == old(it.i) + 1
 //@   ensures sticky: old(it.Err) != nil ==> it.Err != nil
 //@   modifies it.Err, it.p.Read, it.i
 
 //@ spec (*mapIterator).NextInt
-//@   props C07 C06 C10
+//@   props C07 C06 C10 C12
 //@   ensures mono: old(it.p.Read) <= it.p.Read
 //@   ensures ok: old(it.Err) == nil && it.Err == nil ==> old(it.p.Read) < keyStart && keyStart < start && start <= end && end == it.p.Read && it.i == old(it.i) + 1
 //@   ensures sticky: old(it.Err) != nil ==> it.Err != nil
@@ -251,7 +251,7 @@ package generic
 //@ end
 
 //@ spec (Node).Index
-//@   props C07 C06
+//@   props C07 C06 C12
 //@   use accessor()
 //@   ensures negative: idx < 0 ==> v.t == proto.ERROR
 //@   loop 1
@@ -259,21 +259,21 @@ package generic
 //@     decreases idx - j
 
 //@ spec (Node).GetByStr
-//@   props C07 C06
+//@   props C07 C06 C12
 //@   use accessor()
 //@   loop 1
 //@     invariant buf: samerg(it.p.Buf, self.v) && offset(it.p.Buf) == offset(self.v) && len(it.p.Buf) == self.l && 0 <= it.p.Read && it.p.Read <= len(it.p.Buf)
 //@     decreases len(it.p.Buf) - it.p.Read
 
 //@ spec (Node).GetByInt
-//@   props C07 C06
+//@   props C07 C06 C12
 //@   use accessor()
 //@   loop 1
 //@     invariant buf: samerg(it.p.Buf, self.v) && offset(it.p.Buf) == offset(self.v) && len(it.p.Buf) == self.l && 0 <= it.p.Read && it.p.Read <= len(it.p.Buf)
 //@     decreases len(it.p.Buf) - it.p.Read
 
 //@ spec (Node).sliceNodeWithDesc
-//@   props C07 C06 C10
+//@   props C07 C06 C10 C12
 //@   requires span: self.t != proto.ERROR && 0 <= s && s <= e && e <= self.l
 //@   requires schema: desc != nil && (desc.typ == proto.LIST ==> desc.elem != nil) && (desc.typ == proto.MAP ==> desc.elem != nil && desc.key != nil)
 //@   ensures win: r0.t == desc.typ && r0.l == e - s && samerg(r0.v, self.v) && offset(r0.v) == offset(self.v) + s
@@ -283,7 +283,7 @@ package generic
 // Field: ASSUMED (callsite clauses): the schema is well-formed (a field descriptor has a type descriptor; LIST/MAP
 // descriptors have element/key descriptors that are not themselves LIST/MAP).
 //@ spec (Node).Field
-//@   props C07 C06
+//@   props C07 C06 C12
 //@   requires live: self.t != proto.ERROR && msgDesc != nil
 //@   callsite (*MessageDescriptor).ByNumber assumes schema: r0 != nil ==> r0.id >= 1      // field numbers of a schema are positive
 //@   callsite (*FieldDescriptor).Type assumes schema: r0 != nil && (r0.typ == proto.LIST ==> r0.elem != nil && r0.elem.typ != proto.LIST && r0.elem.typ != proto.MAP) && \
@@ -296,7 +296,7 @@ package generic
 
 // ---- bulk lookups: no panic on any bytes, termination, and only the caller's path nodes are written --------
 //@ spec (Node).Fields
-//@   props C07 C06
+//@   props C07 C06 C12
 //@   requires live: self.t != proto.ERROR && msgDesc != nil && opts != nil
 //@   callsite (*FieldDescriptor).Type assumes schema: r0 != nil && (r0.typ == proto.LIST ==> r0.elem != nil && r0.elem.typ != proto.LIST && r0.elem.typ != proto.MAP) && \
 //@       (r0.typ == proto.MAP ==> r0.elem != nil && r0.key != nil)
@@ -307,7 +307,7 @@ package generic
 
 // (element type GROUP is deprecated and unsupported: its wire type 3 is skipped as zero bytes, so iteration would not progress)
 //@ spec (Node).Indexes
-//@   props C07 C06
+//@   props C07 C06 C12
 //@   requires live: self.t != proto.ERROR && opts != nil
 //@   requires elem: self.et != proto.LIST && self.et != proto.MAP && self.et != proto.GROUP
 //@   modifies ins[0:len(ins)]
@@ -317,7 +317,7 @@ package generic
 //@     decreases len(it.p.Buf) - it.p.Read
 
 //@ spec (Node).Gets
-//@   props C07 C06
+//@   props C07 C06 C12
 //@   requires live: self.t != proto.ERROR && opts != nil
 //@   requires elem: self.et != proto.LIST && self.et != proto.MAP && self.kt != proto.LIST && self.kt != proto.MAP
 //@   modifies keys[0:len(keys)]
